@@ -251,6 +251,8 @@ def main():
         if witness is None:
             line += " obligation=%s no-failing-input-found" % name.replace(" ", "_")
         viol_lines.append(line)
+        viol_lines.append("  failed-obligation: %s  [unit %s; %s]" % (name, o["unit"], "public-API witness in the replay file" if witness is not None
+                                                                   else "no public-API witness found within the search bound"))
         reported += 1
 
     # ---- translation validation of the engine (CPython cross-check), every run
